@@ -307,7 +307,7 @@ pub fn groups(property: &str, tier: &str, seed: u64) -> Vec<Group> {
     }
     // generated sources: richer task graphs, more map entries, naming and kerning-location stress
     let n_gen = match (property, quick) {
-        ("C01", true) => 12,
+        ("C01", true) => 18,
         ("C02", true) => 6,
         ("C14", true) => 12,
         ("C15", true) => 4,
